@@ -340,13 +340,13 @@ PPL::Dense_Row::operator=(const Sparse_Row& row) {
     Sparse_Row::const_iterator itr = row.begin();
     const Sparse_Row::const_iterator itr_end = row.end();
     for (dimension_type i = 0; i < impl.size; ++i) {
-      // Computes (*this)[impl.size] = row[impl.size].
+      // Computes (*this)[i] = row[i].
       if (itr != itr_end && itr.index() == i) {
-        impl.vec[impl.size] = *itr;
+        impl.vec[i] = *itr;
         ++itr;
       }
       else {
-        impl.vec[impl.size] = Coefficient_zero();
+        impl.vec[i] = Coefficient_zero();
       }
     }
   }
@@ -356,13 +356,14 @@ PPL::Dense_Row::operator=(const Sparse_Row& row) {
       Sparse_Row::const_iterator itr = row.begin();
       const Sparse_Row::const_iterator itr_end = row.end();
       for (dimension_type i = 0; i < impl.size; ++i) {
-        // The following code is equivalent to (*this)[i] = row[i].
-        if (itr != itr_end && itr.index() == impl.size) {
-          new(&impl.vec[impl.size]) Coefficient(*itr);
+        // The following code is equivalent to (*this)[i] = row[i]
+        // (these elements have already been constructed).
+        if (itr != itr_end && itr.index() == i) {
+          impl.vec[i] = *itr;
           ++itr;
         }
         else {
-          new(&impl.vec[impl.size]) Coefficient();
+          impl.vec[i] = Coefficient_zero();
         }
       }
       // Construct the additional elements.
